@@ -132,9 +132,9 @@ class OrderedSamples:
         self.log_q = np.insert(self.log_q, indices, log_q, axis=0)
 
         if self.strict_threshold:
-            n = np.argmax(
-                self.samples["logL"] >= self.log_likelihood_threshold
-            )
+            # Samples are sorted, so this is the index of the first sample
+            # at or above the threshold, or all samples if there is none.
+            n = np.sum(self.samples["logL"] < self.log_likelihood_threshold)
             indices = np.arange(len(self.samples))
             self.nested_samples_indices = indices[:n]
             self.live_points_indices = indices[n:]
@@ -191,8 +191,10 @@ class OrderedSamples:
             self.add_to_nested_samples(self.live_points_indices)
             self.live_points_indices = None
         else:
-            n = np.argmax(
-                self.live_points["logL"] >= self.log_likelihood_threshold
+            # Live points are sorted, so this is the index of the first
+            # point at or above the threshold, or all points if there is none.
+            n = np.sum(
+                self.live_points["logL"] < self.log_likelihood_threshold
             )
             self.add_to_nested_samples(self.live_points_indices[:n])
             self.live_points_indices = np.delete(
